@@ -228,6 +228,65 @@ def scheduling(I, h, N=3, NE=3, outcomes=False):
     return "dag-fail"
 
 
+def flat_level(I, h, N=3):
+    """one level of 2..N independent leaves, each true / false / data / failing, both collect_all values: the verdict lists ALL
+    unsatisfied (or failing) nodes in ascending node order, data outputs come in ascending node order, gas is the saturating sum
+    - whatever the order in which the nodes of the level are evaluated"""
+    E = I.E
+    n = 2 + E.choose(N - 1, "nodes")
+    kinds = [["true", "false", "data", "err"][E.choose(4, f"kind{i}")] for i in range(n)]
+    collect_all = bool(E.choose(2, "collect_all"))
+    nodes = [mk_node(h, Int("u16", 0xFFFF), [Int("u8", i)] + [Int("u8", 0)] * 31) for i in range(n)]
+    pred = Agg("Predicate", [Cell(h.vec(nodes)), Cell(h.vec([]))])
+    gas = [E.sym_int(f"g{i}", "u64") for i in range(n)]
+    order = []
+
+    def run(I_, ixv, inputs):
+        ix = ixv.v
+        order.append(ix)
+        k = kinds[ix]
+        if k == "err":
+            return Agg(None, [Cell(ixv), Cell(h.err(h.enum("check", "solution::ProgramError", "ParentStackConcatOverflow", h.enum("vm", "error::StackError", "Overflow"))))])
+        if k == "data":
+            po = h.enum("check", "solution::ProgramOutput", "DataOutput", h.enum("check", "solution::DataOutput", "Memory", h.memory([Int("i64", 7000 + ix)])))
+        else:
+            po = h.enum("check", "solution::ProgramOutput", "Satisfied", k == "true")
+        return Agg(None, [Cell(ixv), Cell(h.ok(Agg(None, [Cell(h.enum("check", "solution::Output", "Leaf", po)), Cell(gas[ix])])))])
+    I.overrides.append((re.compile(r"GetProgram>::get_program"), lambda I_, c, a, fr: Ptr(Cell(Agg("Program", [Cell(h.vec([Int("u8", 0x02)]))])), "arc")))
+    cache = Cell(MapV("hash"))
+    ctx = Agg("Ctx", [Cell(h.enum("check", "solution::RunMode", "Outputs")), Cell(Ref(cache))])
+    cfg = Agg("CheckPredicateConfig", [Cell(collect_all)])
+    r = h.call("check", "check_predicate_inner", [PyFn(run, "run"), Ptr(Cell(pred), "arc"), h.ref(cfg), h.ref(Agg("GetProgram", [])), ctx])
+    gx = dict(kinds=kinds, collect_all=collect_all, order=str(order))
+    if sorted(order) != list(range(n)) and not (not collect_all and "err" in kinds):
+        raise Violation(f"nodes evaluated: {order}", E.model_for(), gx)
+    failing = [i for i in range(n) if kinds[i] == "err"]
+    unsat = [i for i in range(n) if kinds[i] == "false"]
+    if failing:
+        want = failing if collect_all else failing[:1]
+        if r.variant != "Err" or r.cells[0].v.variant != "ProgramErrors": raise Violation("failing programs are not reported as ProgramErrors", E.model_for(), gx)
+        ixs = [c.v.cells[0].v.v for c in stdmodels.as_slice(r.cells[0].v.cells[0].v.cells[0].v).cells()]
+        if ixs != want: raise Violation(f"failing node indices {ixs}, expected {want} (ascending{'' if collect_all else ', first only'})", E.model_for(), gx)
+        return "failing"
+    if unsat:
+        if r.variant != "Err" or r.cells[0].v.variant != "ConstraintsUnsatisfied": raise Violation("unsatisfied leaves are not reported as ConstraintsUnsatisfied", E.model_for(), gx)
+        ixs = [c.v.v for c in stdmodels.as_slice(r.cells[0].v.cells[0].v.cells[0].v).cells()]
+        if ixs != unsat: raise Violation(f"unsatisfied indices {ixs}, expected {unsat} (all of them, ascending)", E.model_for(), gx)
+        return "unsatisfied"
+    if r.variant != "Ok": raise Violation("every leaf is satisfied or outputs data, but the check fails", E.model_for(), gx)
+    tot = None
+    for g in gas:
+        if tot is None: tot = g.z3()
+        else:
+            s_ = tot + g.z3()
+            tot = z3.If(z3.ULT(s_, tot), z3.BitVecVal((1 << 64) - 1, 64), s_)
+    check(E, b_not(int_binop("Eq", r.cells[0].v.cells[0].v, mk_int("u64", tot))), "gas is not the saturating sum of the nodes", gx)
+    data = [d.v.cells[0].v.cells[0].v.cells[0].v.v for d in stdmodels.as_slice(r.cells[0].v.cells[1].v).cells()]
+    want = [7000 + i for i in range(n) if kinds[i] == "data"]
+    if data != want: raise Violation(f"data outputs {data}, expected {want} (ascending node order)", E.model_for(), gx)
+    return "ok-data" if want else "ok"
+
+
 def outcomes(I, h, N=2, NE=2):
     return scheduling(I, h, N, NE, outcomes=True)
 
@@ -240,6 +299,10 @@ HARNESSES = {
                    thorough="1..3 nodes, <=3 edges"),
         timeout=dict(quick=900, thorough=3300), max_paths=dict(quick=400000, thorough=3000000),
         replay=dict(kind="check_graph")),
+    "flat_level": dict(props=["C01"], crates=CR, fn=flat_level, params=dict(quick=dict(N=3), thorough=dict(N=4)),
+        witnesses=["ok", "ok-data", "unsatisfied", "failing"],
+        bound=dict(quick="one level of 2..3 independent leaves, each true / false / data output / failing, both values of collect_all_failures, symbolic gas", thorough="2..4 leaves"),
+        replay=dict(kind="check_flat")),
     "outcomes": dict(props=["C01", "C06"], crates=CR, fn=outcomes,
         params=dict(quick=dict(N=2, NE=2), thorough=dict(N=3, NE=2)), witnesses=["dag-ok", "dag-fail"],
         bound=dict(quick="1..2 nodes, <=2 edges (any u16), one node may fail / be unsatisfied / output data, both values of collect_all_failures",
